@@ -3,6 +3,7 @@
 From RipV Require Import Base.Prelude Model.Compaction Proofs.CompactionProofs Proofs.CompactionSummaryProofs
   Proofs.CompactionCacheProofs.
 From RipV Require Model.Cache Proofs.CacheProofs.
+From Coq Require Import Sorting.Sorted Sorting.Permutation.
 
 (* Cut points are exactly the k*stride-th messages, latest k first (k = K, K-1, … >= 1 with
    K = message_count / stride), at most clamp(limit) of them, each identified by that message's (seq, id).
@@ -399,6 +400,25 @@ Theorem c09_summary_hypotheses_hold_when_reachable : forall (K : consts) (ops : 
   /\ Forall (fun c => ck_to c <> 0) (ckpts (log (fst (run_ops K st0 ops [])))).
 Proof. exact reachable_summary_hyps. Qed.
 Print Assumptions c09_summary_hypotheses_hold_when_reachable.
+
+(* What the summary records of its delta and the correspondence reads back from the artifact: `- delta_actors:` is the
+   head (6 entries) of the per-actor message counts of the slice sorted most-frequent-first, ties by actor — every entry
+   (a, c) says that exactly c > 0 messages of the slice were written by a; `## Recent Delta Highlights` is the slice's
+   suffix of 12 messages (the whole slice when shorter).  Together with the count they pin the slice down. *)
+Theorem c09_summary_records_delta : forall (sl : list (N * N)),
+  (exists rest, Permutation (delta_actors sl ++ rest) (histo sl)
+     /\ StronglySorted hist_le (delta_actors sl ++ rest)
+     /\ (length (delta_actors sl) <= k_actors_shown)%nat
+     /\ (rest <> [] -> length (delta_actors sl) = k_actors_shown)
+     /\ forall a c, In (a, c) (delta_actors sl) -> c = count_actor a sl /\ 0 < c)
+  /\ (NoDup (map fst (histo sl)) /\ forall a, hget a (histo sl) = count_actor a sl)
+  /\ (exists pre, sl = pre ++ delta_highlights sl
+        /\ nlen (delta_highlights sl) <= k_highlights /\ (pre <> [] -> nlen (delta_highlights sl) = k_highlights)).
+Proof.
+  exact (fun sl => conj (delta_actors_spec sl)
+                    (conj (conj (proj1 (histo_spec sl)) (proj2 (proj2 (histo_spec sl)))) (delta_highlights_spec sl))).
+Qed.
+Print Assumptions c09_summary_records_delta.
 
 (* non-vacuity: 7 messages, stride 2, max_new 2: the summary of the 4th message is built from scratch out of messages
    1..4, the summary of the 6th on top of it out of messages 5 and 6; a later message, a later checkpoint frame for the
